@@ -463,13 +463,13 @@ func init() {
 					if A.csrf != nil || w.mr != nil {
 						break
 					}
-					for round := 0; round < 25; round++ {
-						const nconc = 16
+					for round := 0; round < 200; round++ {
+						const nconc = 32
 						jars := make([]*vpJar, nconc)
 						sess := make([]*sessionsapi.SessionState, nconc)
 						for i := range jars {
 							jars[i] = vpNewJar()
-							sess[i] = vpMkSession(1000+round*nconc+i, 150+rng.Intn(400), rng)
+							sess[i] = vpMkSession(1000+round*nconc+i, 150+rng.Intn(1500), rng)
 						}
 						var wg sync.WaitGroup
 						for i := range jars {
